@@ -8,7 +8,7 @@ import os
 import sympy as sp
 
 from ..astq import Inliner, U, kwarg, raised_class_name, statements, store_targets
-from ..cfg import CFG
+from ..cfg import CFG, header_walk
 from ..index import AnalysisError, walk_no_nested
 from ..normalform import (GuardUnsupported, NFUnsupported, Normalizer, equal, eval_guard, numeric_constants, sym, sym_exec)
 from ..selftest import V
@@ -487,6 +487,25 @@ def r5_statistics_not_rewritten(ctx):
         ctx.ok("C05.R5", fn, fn.node, f"locals aliasing State values {names}: never modified in place", construct=f"def {fn.name}")
 
 
+def r8_step_runs_every_iteration(ctx, rid="C05.R8", why="the statistics in force stay S_(k-1) for that iteration instead of (1 - e_k) S_(k-1) + e_k s_k (and, in the memory-less phase, instead of s_k, "
+                                 "which depends on the parameters updated at the previous iteration)"):
+    """'at every iteration k': the averaging is part of every iteration - `_iteration` calls `_maximization_step` on every path, under no
+    condition (an iteration whose proposals were all rejected still has its statistics s_k, computed with the current parameters)."""
+    ctx.rule(rid, "every iteration runs the maximization step (statistics and parameters are updated at every k)", 1)
+    f = ctx.ix.func(FIT, "TensorMcmcSaemAlgorithm._iteration", rid)
+    ctx.analysed(f)
+    cfg = CFG(f.node)
+    calls = [n for n, st in cfg.stmt.items() if st is not None and any(isinstance(c, ast.Call) and U(c.func) == "self._maximization_step" for c in header_walk(st))]
+    if not calls:
+        ctx.violation(rid, f, f.node, "`_iteration` no longer calls `_maximization_step`: " + why, construct="maximization step at every iteration")
+        return
+    guarded = [(cfg.stmt[h], lab) for n in calls for h, lab in cfg.if_guards(n)]
+    ok = cfg.all_paths_pass(cfg.entry, calls) and not guarded
+    ctx.check(ok, rid, f, cfg.stmt[calls[0]], "`self._maximization_step(model, state)` on every path through an iteration",
+              (f"the maximization step only runs when `{U(guarded[0][0].test)[:80]}`: " if guarded else "a path through `_iteration` skips the maximization step: ") + why,
+              construct="maximization step at every iteration")
+
+
 def rules(ctx):
     r1_phase(ctx)
     r2_convex(ctx)
@@ -494,6 +513,7 @@ def rules(ctx):
     r4_length(ctx)
     r4b_single_writer(ctx)
     r6_iteration_counter(ctx)
+    r8_step_runs_every_iteration(ctx)
     # the burn-in length an algorithm derives stays in its own copy of the parameters (same rule as C11.R7)
     from .c11 import r7_deepcopy
     r7_deepcopy(ctx, rid="C05.R7")
